@@ -141,6 +141,10 @@ func (server *Server) pop(conn *redis.Conn, key string, count int, isLPop bool) 
 		elems, ok = list.RPop(count)
 	}
 
+	if list.Len() == 0 {
+		db.RemoveRecord(key)
+	}
+
 	if !ok || len(elems) == 0 {
 		return redis.NewNilMessage(), nil
 	}
@@ -210,9 +214,12 @@ func (server *Server) LRange(conn *redis.Conn, key string, start int, stop int) 
 		return nil, err
 	}
 
-	_, list, err := db.GetListRecord(key)
+	list, err := db.LookupListRecord(key)
 	if err != nil {
 		return nil, err
+	}
+	if list == nil {
+		return redis.NewArrayMessage(), nil
 	}
 
 	elems := list.Range(start, stop)
@@ -231,9 +238,12 @@ func (server *Server) LIndex(conn *redis.Conn, key string, idx int) (*redis.Mess
 		return nil, err
 	}
 
-	_, list, err := db.GetListRecord(key)
+	list, err := db.LookupListRecord(key)
 	if err != nil {
 		return nil, err
+	}
+	if list == nil {
+		return redis.NewNilMessage(), nil
 	}
 
 	elem, ok := list.Index(idx)
@@ -250,9 +260,12 @@ func (server *Server) LLen(conn *redis.Conn, key string) (*redis.Message, error)
 		return nil, err
 	}
 
-	_, list, err := db.GetListRecord(key)
+	list, err := db.LookupListRecord(key)
 	if err != nil {
 		return nil, err
+	}
+	if list == nil {
+		return redis.NewIntegerMessage(0), nil
 	}
 
 	return redis.NewIntegerMessage(list.Len()), nil
